@@ -309,20 +309,32 @@ Proof.
   simpl. rewrite P. reflexivity.
 Qed.
 
-Lemma multi_step_safe : forall parse flow_id result o,
-  multi_step_post parse true flow_id result = Some o ->
+Lemma cap_lines_nonempty : forall n l, l <> [] -> cap_lines n l <> [].
+Proof. intros n l NE. destruct n as [|n]; [exact NE|]. destruct l; [congruence|]. simpl. discriminate. Qed.
+
+Lemma cap_lines_length : forall n l, n <> 0%nat -> (List.length (cap_lines n l) <= n)%nat.
+Proof. intros n l NZ. destruct n as [|n]; [congruence|]. unfold cap_lines. rewrite firstn_length. lia. Qed.
+
+Lemma multi_step_safe : forall parse flow_id maxl result o,
+  multi_step_post parse true flow_id maxl result = Some o ->
   match o with
   | GeneralResponse => True
   | StartFlow ls => process_start_flow_parse parse flow_id (join_nl ls) = Ok tt /\ blank (join_nl ls) = false
   end.
 Proof.
-  intros parse flow_id result o H. unfold multi_step_post in H.
-  pose proof (shrink_result _ _ _ _ (split_nl_nonempty result) H) as R.
+  intros parse flow_id maxl result o H. unfold multi_step_post in H.
+  pose proof (shrink_result _ _ _ _ (cap_lines_nonempty maxl _ (split_nl_nonempty result)) H) as R.
   destruct o as [|ls]; [exact I|]. destruct R as [A _]. apply runtime_parse_guarded. exact A.
 Qed.
 
-Lemma multi_step_total : forall parse vw flow_id result, exists o, multi_step_post parse vw flow_id result = Some o.
-Proof. intros. unfold multi_step_post. apply shrink_terminates. apply split_nl_nonempty. Qed.
+Lemma multi_step_total : forall parse vw flow_id maxl result, exists o, multi_step_post parse vw flow_id maxl result = Some o.
+Proof. intros. unfold multi_step_post. apply shrink_terminates. apply cap_lines_nonempty. apply split_nl_nonempty. Qed.
+
+(* with a cap, the number of validations (= parser runs) of one completion is at most the cap,
+   whatever the length of the completion: the loop's fuel is the number of capped lines *)
+Lemma multi_step_work_bounded : forall maxl result, maxl <> 0%nat ->
+  (List.length (cap_lines maxl (split_nl result)) <= maxl)%nat.
+Proof. intros. apply cap_lines_length. assumption. Qed.
 
 (* the validation of the raw body (what the code did before the repair) says nothing about the
    wrapped text: there is a parser and an output that is accepted and then raises at start_flow *)
@@ -331,7 +343,7 @@ Definition header_parser (t : text) : res nat :=
 
 Lemma runtime_parse_unguarded_refuted :
   exists parse flow_id result ls,
-    multi_step_post parse false flow_id result = Some (StartFlow ls) /\
+    multi_step_post parse false flow_id 0 result = Some (StartFlow ls) /\
     exists e, process_start_flow_parse parse flow_id (join_nl ls) = Err e.
 Proof.
   exists header_parser, (s2t "f"), (s2t """"), [s2t """"]. split; [vm_compute; reflexivity|].
@@ -375,7 +387,7 @@ Theorem helpers_total : forall s : text,
   (exists r, general_post s = Ok r) /\
   (s <> [] -> exists r, single_call_post s = Ok r) /\
   (s = [] -> single_call_post s = Err TypeError) /\
-  (forall parse vw fid, exists o, multi_step_post parse vw fid s = Some o).
+  (forall parse vw fid maxl, exists o, multi_step_post parse vw fid maxl s = Some o).
 Proof.
   intro s.
   repeat split.
